@@ -42,20 +42,30 @@ PINNED_TABLES_SHA256 = "88782a97a44b434bcc82955feb2860c3bab9105de4e8a43adc88e9fc
 _TABLES_STATE = {}
 
 
+# every generated file the Threshold model is built from -> sha256 of its content as lifted from the pinned tree
+PINNED_GENERATED = {
+    "ThresholdTables.lean": PINNED_TABLES_SHA256,
+    "TradeoffSrc.lean": "2411eff130ddf215fd55dce7de4a6d7f84552638d6c42a80f166a5ed92c0dc9f",
+}
+
+
 def tables_changed():
-    """True when the translator lifted tables that differ from the pinned tree's.  The Lean model is built FROM these
-    tables, so a model-vs-oracle disagreement is then a statement about the source (its formulas no longer are the
-    first-principles metrics), not a bug of this machinery."""
+    """True when the translator lifted tables / expressions that differ from the pinned tree's.  The Lean model is built
+    FROM these files, so a model-vs-oracle disagreement is then a statement about the source (its formulas no longer are
+    the first-principles ones), not a bug of this machinery."""
     if "v" not in _TABLES_STATE:
         import hashlib
         import os
         from . import leanrun
-        path = os.path.join(leanrun.LEAN, "FairModel", "Generated", "ThresholdTables.lean")
-        try:
-            with open(path, "rb") as f:
-                _TABLES_STATE["v"] = hashlib.sha256(f.read()).hexdigest() != PINNED_TABLES_SHA256
-        except OSError:
-            _TABLES_STATE["v"] = False
+        changed = False
+        for name, want in PINNED_GENERATED.items():
+            path = os.path.join(leanrun.LEAN, "FairModel", "Generated", name)
+            try:
+                with open(path, "rb") as f:
+                    changed = changed or hashlib.sha256(f.read()).hexdigest() != want
+            except OSError:
+                pass
+        _TABLES_STATE["v"] = changed
     return _TABLES_STATE["v"]
 
 
